@@ -8,6 +8,10 @@ import sys
 from symx import run
 
 MODULES = {
+    "C01": "harness.rewrite",
+    "C02": "harness.rewrite",
+    "C04": "harness.rewrite",
+    "C06": "harness.rewrite",
     "C14": "harness.dwarf",
     "C15": "harness.cfi_eval",
 }
